@@ -88,7 +88,7 @@ def run(ctx: Ctx) -> int:
 	design_cex = coded.invariant_violated + coded.action_property_violated
 	ctx.log(f'TLC: deep header {sound.distinct} states OK; header as coded: {coded.distinct} states, violated at design level: {design_cex or "nothing"}')
 
-	edges_res = tlc.run('MCTranp', 'Tranp_runner_edges4.cfg' if quick else 'Tranp_runner_edges7.cfg', workers=1, timeout=900)
+	edges_res = tlc.run('MCTranp', 'Tranp_runner_edges4.cfg' if quick else 'Tranp_runner_edges6.cfg', workers=1, timeout=900)
 	edges = [json.loads(line) for line in edges_res.lines('EDGE ')]
 	if not edges:
 		raise Machinery('no edges emitted')
